@@ -1,11 +1,111 @@
-// Package c01: block processing never halts (full-application histories through the real
-// FinalizeBlock, watchdog children for transactions that may not return).
+// Package c01: block processing never halts.
+//
+// Full-application histories through the real FinalizeBlock with signed transactions of every
+// custom module interleaved with block boundaries; block times from a schedule generator (whole
+// seconds, sub-second offsets, jumps across every pending deadline +- 1 ns / +- 1 s, minute and
+// year boundaries of the mint schedule); parameters at the edges their Validate accepts.
+// Before every block the projections the custom hooks read are dumped (CBlock cases: the Gallina
+// composition Sys/Blocks.v predicts the outcome class and a few post-state fields).
+// MsgCreatePool + the first MsgCreatePosition of a pool - the transaction that runs the unmetered
+// price -> tick search - are executed in child processes under a watchdog (CWatch cases).
 package c01
 
-import "fmt"
+import (
+	"fmt"
+	"sync"
+	"time"
 
-// Run generates n cases from seed, runs them on the real application and writes
+	"verifharness/emit"
+)
+
+const watchdog = 20 * time.Second
+
+// Run generates about n cases from seed, runs them on the real application and writes
 // cases_*.v and stats.json into outDir.
 func Run(seed int64, n int, outDir string) error {
-	return fmt.Errorf("c01: harness not built yet")
+	st := emit.NewStats("C01", seed, rule)
+	cf := &emit.CasesFile{Import: "Sys.C01Check", Runner: "run", Type: "c01_case"}
+	rn := &runner{r: emit.NewRand(seed), cf: cf, st: st, seed: seed}
+
+	// watched transactions run in child processes while the histories are executed
+	specs := watchCorpus()
+	nw := n / 40
+	if nw < 4 {
+		nw = 4
+	}
+	specs = append(specs, watchRandom(emit.NewRand(seed+7777), nw)...)
+	outs := make([]watchOut, len(specs))
+	var wg sync.WaitGroup
+	sem := make(chan struct{}, 3)
+	for i := range specs {
+		wg.Add(1)
+		go func(i int) {
+			defer wg.Done()
+			sem <- struct{}{}
+			defer func() { <-sem }()
+			outs[i] = runWatched(specs[i], watchdog+5*time.Second)
+		}(i)
+	}
+
+	rn.corpus()
+	perHistory := 45
+	for k := 0; st.Evaluations < n-len(specs); k++ {
+		if rn.w != nil {
+			rn.w.h.Close()
+		}
+		rn.w = newWorld(seed*1000+int64(k), 8, 2)
+		rn.dead = false
+		rn.pendingPool = nil
+		rn.r = emit.NewRand(seed*7919 + int64(k))
+		rn.w.r = rn.r
+		st.Count("history:generated")
+		left := n - len(specs) - st.Evaluations
+		nb := perHistory
+		if left < nb {
+			nb = left
+		}
+		rn.history(nb)
+		if k > 200 {
+			break
+		}
+	}
+	if rn.w != nil {
+		rn.w.h.Close()
+	}
+
+	wg.Wait()
+	for i, sp := range specs {
+		o := outs[i]
+		if o.ChildErr != "" && !o.TimedOut {
+			return fmt.Errorf("watch child %d: %s", i, o.ChildErr)
+		}
+		returned := o.PosDone && !o.TimedOut
+		term := fmt.Sprintf("(CWatch %s %s %s %s %s {| wo_pool_ok := %s; wo_returned := %s; wo_pos_ok := %s; wo_tick := %d |})",
+			emit.Z(decRawOr(sp.Fee)), emit.Z(decRawOr(sp.Ratio)), emit.Z(decRawOr(sp.Offset)), sp.Quote, sp.Base,
+			emit.Bool(o.PoolCode == 0 && o.PoolErr == ""), emit.Bool(returned), emit.Bool(returned && o.PosCode == 0 && o.PosErr == ""), o.Tick)
+		rn.add(term, map[string]any{"kind": "watch", "spec": sp, "out": o, "seed": seed})
+		st.Count(fmt.Sprintf("watch:returned=%v", returned))
+		if returned && o.PosCode == 0 {
+			st.Count("watch:position-created")
+			st.Nontriv(fmt.Sprintf("watch|%s|%s|tick%d", sp.Ratio, sp.Offset, bucket(o.Tick)))
+		} else {
+			st.Nontriv(fmt.Sprintf("watch|%s|%s|pool%d|pos%d|timeout=%v", sp.Ratio, sp.Offset, o.PoolCode, o.PosCode, o.TimedOut))
+		}
+	}
+	if _, err := cf.Write(outDir, "cases", 40); err != nil {
+		return err
+	}
+	return st.Write(outDir)
+}
+
+func bucket(t int64) int {
+	if t < 0 {
+		t = -t
+	}
+	b := 0
+	for t > 0 {
+		t /= 10
+		b++
+	}
+	return b
 }
